@@ -21,7 +21,6 @@ from __future__ import annotations
 
 import asyncio
 import errno
-import io
 import json
 import logging
 import os
@@ -33,7 +32,7 @@ import time
 import uuid
 from typing import Any, Dict, List, Optional, Tuple
 
-from common import REPO, Ctx, log, run_model
+from common import Ctx, run_model
 from ref import statefile as ref
 
 PROP = "C15"
@@ -658,7 +657,7 @@ def translate(rlog: List[Tuple[Any, str, str]], crashed=False):
     return labels, names
 
 
-def model_case(rig_init: Optional[str], chunks: List[List[str]], labels, names, implicit_spawn=False):
+def model_case(rig_init: Optional[str], chunks: List[List[str]], labels, names):
     table: Dict[int, str] = {}
     snaps = []
     for v, cs in enumerate(chunks):
@@ -1324,7 +1323,6 @@ def replay(ctx: Ctx, r):
     elif kind == "schedule":
         schedule_case(ctx, r["scenario"], r["cmds"], sink, timeout=0.5, faults=tuple(tuple(f) for f in r.get("faults", [])), verbose=True)
     elif kind == "natural":
-        ok = False
         for _ in range(20):  # timing dependent: try a few times
             if not natural_case(ctx, r["scenario"], r["ops"], r["jitter"], r["gaps"], verbose=True):
                 break
